@@ -187,8 +187,10 @@ def _call(args):
         raise HarnessError('worker failed on task %r:\n%s' % (task, traceback.format_exc())) from err
 
 
-def pmap(fn, tasks, nproc=None, chunksize=1):
-    """Ordered parallel map over `tasks` with forked workers (fn must be module level)."""
+def pmap(fn, tasks, nproc=None, chunksize=1, fresh=False):
+    """Ordered parallel map over `tasks` with forked workers (fn must be module level).
+    fresh=True gives every task its own newly forked process (no interpreter state is shared
+    between tasks: needed where a task must start from a clean module state)."""
     tasks = list(tasks)
     nproc = min(nproc or NPROC, max(1, len(tasks)))
     if nproc <= 1 or os.environ.get('VERIF_SERIAL'):
@@ -196,7 +198,7 @@ def pmap(fn, tasks, nproc=None, chunksize=1):
             yield _call((fn, t))
         return
     ctx = multiprocessing.get_context('fork')
-    with ctx.Pool(nproc, initializer=_worker_init) as pool:
+    with ctx.Pool(nproc, initializer=_worker_init, maxtasksperchild=1 if fresh else None) as pool:
         for res in pool.imap(_call, [(fn, t) for t in tasks], chunksize=chunksize):
             yield res
 
